@@ -316,6 +316,28 @@ func c18(args []string) {
 				rt[name] = c18Project(a)
 			}
 		}
+		// several documents in one text, parsed with json-parse; the callback keeps the bags and they are looked at after
+		// the whole text has been parsed: (the document now, the document at the start, the document now)
+		for name, form := range map[string]string{
+			"stream":  `(let ((acc nil)) (json-parse (lambda (x) (setq acc (cons x acc))) (concatenate 'string (bag-write b) " " btext " " (bag-write b))) (reverse acc))`,
+			"streamj": `(let ((acc nil)) (json-parse (lambda (x) (setq acc (cons x acc))) (concatenate 'string (bag-write b :json t) " " btext " " (bag-write b :json t)) t) (reverse acc))`,
+		} {
+			rt[name] = h.V{"k": "none"}
+			o := h.Eval(s, form)
+			if !o.OK() {
+				rt["st"] = name + ": " + o.Class + ": " + o.Msg
+				continue
+			}
+			docs := []any{}
+			if l, ok := o.Val.(slip.List); ok {
+				for _, x := range l {
+					if inst, ok := x.(*flavors.Instance); ok {
+						docs = append(docs, c18Project(inst.Any))
+					}
+				}
+			}
+			rt[name] = h.V{"k": "arr", "v": docs}
+		}
 		br := h.Try(func() slip.Object {
 			rt["bridge"] = c18Project(slip.Simplify(slip.SimpleObject(final)))
 			return nil
